@@ -441,6 +441,21 @@ class Outcome:
 
 def write_evidence(out, tier, wall_s):
     os.makedirs(EVID, exist_ok=True)
+    # schema: coverage.exhaustive is one boolean; per-part detail goes to exhaustive_parts
+    ex = out.coverage.get("exhaustive")
+    if isinstance(ex, dict):
+        out.coverage["exhaustive_parts"] = ex
+        out.coverage["exhaustive"] = bool(ex) and all(bool(v) for v in ex.values() if isinstance(v, bool))
+    elif ex is not None and not isinstance(ex, bool):
+        out.coverage["exhaustive_detail"] = ex
+        out.coverage["exhaustive"] = bool(ex)
+    for k in ("evaluations", "distinct_nontrivial", "states", "transitions", "traces_validated_against_impl", "obligations", "discharged",
+              "programs", "disagreements_checked"):
+        if k in out.coverage and not isinstance(out.coverage[k], int):
+            try:
+                out.coverage[k] = int(out.coverage[k])
+            except Exception:
+                out.coverage[k + "_detail"] = out.coverage.pop(k)
     ev = {
         "property_id": out.prop_id,
         "tier": tier,
